@@ -92,7 +92,7 @@ peg::parser! {
         }
 
         rule lvalue() -> ast::ArithmeticTarget =
-            name:variable_name() "[" index:expression() "]" {
+            name:variable_name() "[" _ index:expression() _ "]" {
                 ast::ArithmeticTarget::ArrayElement(name.to_owned(), Box::new(index))
             } /
             name:variable_name() {
